@@ -1313,6 +1313,9 @@ func (pc ParseContext) compilePackage(ctx context.Context, b ast.Branch, c ast.C
 
 		name := scanner.String()
 		if strings.HasPrefix(name, "/") {
+			// Trim before cleaning and checking, so that the path that is
+			// checked is the path that is read.
+			name = strings.Trim(name, " \t\n")
 			fromRoot := pkg["dot"] == nil
 			if !fromRoot {
 				name = "." + name
